@@ -27,7 +27,7 @@ fn main() {
     let mut tally = Tally::default();
     match engine.as_str() {
         "vrun" => vrun(&profile, seed, start, count, &out, verbose, &mut tally),
-        "vstream" => vstream(&profile, seed, start, count, verbose, &mut tally),
+        "vstream" => vstream(&profile, seed, start, count, verbose, &mut tally, &out),
         other => {
             eprintln!("unknown engine {other}");
             std::process::exit(2);
@@ -103,7 +103,8 @@ fn vrun(profile: &str, seed: u64, start: u64, count: u64, out: &str, verbose: bo
     }
 }
 
-fn vstream(profile: &str, seed: u64, start: u64, count: u64, verbose: bool, tally: &mut Tally) {
+fn vstream(profile: &str, seed: u64, start: u64, count: u64, verbose: bool, tally: &mut Tally, out: &str) {
+    let mut dump: Option<std::io::BufWriter<std::fs::File>> = (profile == "c14").then(|| std::io::BufWriter::new(std::fs::File::create(format!("{out}.dump.jsonl")).expect("dump file")));
     use vh::{oracles_stream as os, recw, rng::Rng, synth};
     let gen_prof = spec::Profile::by_name("general");
     for idx in start..start + count {
@@ -143,6 +144,28 @@ fn vstream(profile: &str, seed: u64, start: u64, count: u64, verbose: bool, tall
                     rng.shuffle(&mut items); // these wrappers are stateless per event
                 }
                 os::c13(&items, tally, idx, &mut rng);
+            }
+            "c14" => {
+                let cdata = idx % 10 == 9;
+                let pathless = idx % 3 == 0;
+                let items = if real {
+                    synth::from_items(&real_items()).items
+                } else {
+                    let cfg = synth::SynthCfg { not_found: idx % 4 == 0, ..synth::SynthCfg::default() };
+                    synth::generate_with(seed, idx, cfg, idx % 2 == 0, &gen_prof, |feats, r| {
+                        synth::decorate(feats, r, cdata);
+                        for (i, f) in feats.iter_mut().enumerate() {
+                            if pathless && i % 2 == 0 {
+                                f.path = None;
+                            }
+                        }
+                    })
+                    .items
+                };
+                let rec = vh::reporters::dump_case(idx, &items, idx / 2, json!({"cdata": cdata && !real, "real": real}));
+                use std::io::Write as _;
+                writeln!(dump.as_mut().unwrap(), "{rec}").expect("dump write");
+                tally.evaluations += 1;
             }
             other => {
                 eprintln!("unknown vstream profile {other}");
